@@ -137,6 +137,8 @@ class CliAssembler:
                 if prog == "named" and len(combo) == 3:
                     continue
                 out.append({"id": "asm/combined/%s/%s" % ("+".join(combo), prog), "k": "all3", "combo": combo, "prog": prog})
+        for combo in (("bin", "cas"), ("bin", "dsk"), ("bin", "cas", "dsk"), ("cas", "dsk")):
+            out.append({"id": "asm/combined/%s/unnamed" % "+".join(combo), "k": "all3", "combo": combo, "prog": "unnamed"})
         out.append({"id": "asm/combined/bin+cas+dsk/markers", "k": "all3", "combo": ("bin", "cas", "dsk"), "prog": "markers"})
         out.append({"id": "asm/combined/bin+cas+dsk/big51k", "k": "all3", "combo": ("bin", "cas", "dsk"), "prog": "big51k"})
         out.append({"id": "asm/combined/cas+dsk/big60k", "k": "all3", "combo": ("cas", "dsk"), "prog": "big60k"})
@@ -356,6 +358,10 @@ class CliAssembler:
         run = self._assembled(env, lines)
         for t in combo:
             after = r.fs.get(self._target(t))
+            if t != "bin" and not run.name:
+                # no NAM and no --name: no cassette or disk file is created -- and the raw binary asked for in the same run still is
+                env.ensure("C11:no-name-no-container", after is None, ("C11",), sig("%s-file-created-without-name" % t))
+                continue
             if after is None:
                 env.fail("C11:saved-image", ("C11",), sig("no-%s-file" % t))
                 continue
